@@ -32,7 +32,7 @@ MIN_NONTRIVIAL = 100
 
 
 def generate(rng, tier, idx):
-    c = knncase.gen_knn_case(rng, tier, model=("knn" if idx % 2 else "unsup"), metrics=gen.SAFE_METRICS)
+    c = knncase.gen_knn_case(rng, tier, model=("knn" if idx % 2 else "unsup"), metrics=gen.SAFE_METRICS, allow_pre=True)
     n = len(c["X"])
     if rng.random() < 0.6:
         c["max_k"] = int(min(n - 1, rng.integers(3, 9)))
@@ -65,7 +65,11 @@ def check(case):
     if kind == "unsup":
         from opfython.math.distance import DISTANCES
         fn = DISTANCES[case["metric"]]
-        W = np.array([[float(fn(X[i].copy(), X[j].copy())) if i != j else 0.0 for j in range(n)] for i in range(n)])
+        if case.get("pre"):
+            I = np.array(case["pre"]["I"], dtype=int)
+            W = np.array(case["pre"]["D"], dtype=float)[np.ix_(I, I)]
+        else:
+            W = np.array([[float(fn(X[i].copy(), X[j].copy())) if i != j else 0.0 for j in range(n)] for i in range(n)])
         if knncase.degenerate_density(case, W):
             return res.reject("zero-density-bound")
     rec = hooks.Recorder()
@@ -88,7 +92,8 @@ def check(case):
         targets.append((cls, "_clustering", None, ev("cluster", lambda a, k, r: (int(a[1] if len(a) > 1 else k.get("n_neighbours")),))))
         targets.append((cls, "_normalized_cut", None, ev("crit", lambda a, k, r: (int(a[1] if len(a) > 1 else k.get("n_neighbours")), float(r)))))
     with hooks.patched(rec, targets):
-        m, call = knncase.fit_model(case)
+        # a prior fit on the same object (case["refit"]) is history, not part of the judged event log
+        m, call = knncase.fit_model(case, before_final=rec.events.clear)
     log = rec.of("log")
     crit = [e for e in log if e[0] == "crit"]
     if not call.ok:
